@@ -321,9 +321,10 @@ func Plans() map[string]*Plan {
 		ps["C19"] = &Plan{Prop: "C19", Level: "exploration",
 			Parts: []Part{
 				{Name: "S-SHARE", Quick: 12000, Thorough: 1000000, Gen: func(seed uint64) *RunSpec { return GenShare("C19", seed) }},
+				{Name: "S-SHARE-STMT", Quick: 1000, Thorough: 100000, Gen: func(seed uint64) *RunSpec { return GenShareStmt("C19", seed) }},
 				{Name: "S-SHARE-RACE", Quick: 24, Thorough: 1200, Gen: func(seed uint64) *RunSpec { return GenShareRace("C19", seed, 12) }},
 			},
-			Rule:        "S-SHARE: one Reader (simulated-disk BlockSource, or a file on the simulated filesystem), one Merged or one Stack.Merged() shared by 2-8 reader tasks with seeded programs of scans, seeks and RefsFor, interleaved at every ReadBlock/ReadAt by the seeded scheduler; results must equal those of each program alone on a separate fresh instance. S-SHARE-RACE: the same seeded programs on free-running goroutines in a race-detector build of the unrewritten sources (12 cases per process); any race report or result mismatch is a violation. non-trivial = at least two tasks interleaved (>=3 schedule segments) or a race-build batch; distinct = distinct (schedule, case) hashes",
+			Rule:        "S-SHARE: one Reader (simulated-disk BlockSource, or a file on the simulated filesystem), one Merged or one Stack.Merged() shared by 2-8 reader tasks with seeded programs of scans, seeks and RefsFor, interleaved at every ReadBlock/ReadAt by the seeded scheduler; results must equal those of each program alone on a separate fresh instance. S-SHARE-STMT: the same, with a yield point inserted before EVERY statement of the library by the rewriter (statement-level interleaving, still one seed = one exactly replayable schedule). S-SHARE-RACE: the same seeded programs on free-running goroutines in a race-detector build of the unrewritten sources (12 cases per process); any race report or result mismatch is a violation. non-trivial = at least two tasks interleaved (>=3 schedule segments) or a race-build batch; distinct = distinct (schedule, case) hashes",
 			Nontrivial:  func(r *RunResult) bool { return len(r.Segs) > 2 || r.Probes["race-cases"] > 0 },
 			Assumptions: []string{"race-detector reports are happens-before based: they reproduce with the same seed with overwhelming probability, but that part of a replay is not exact", "the deterministic part interleaves only at the block-read seam; memory-level races are the race detector's job"}}
 	}
